@@ -110,7 +110,82 @@ pub static TARGETS: &[Target] = &[
             out(&c, |obs| c04::check(&c, obs))
         },
     },
+    Target {
+        name: "tmpl",
+        prop: "C11",
+        part: "fuzz",
+        decoding: "structured: bytes 0..2 select backend / API / leading value, every following group of bytes is one template segment (word, operator, whitespace, quoted text with its pieces, placeholder, doubled mark, foreign mark, $name); the check's own normalisation then puts the list into its sound domain",
+        run: |data| {
+            let c = decode_template(data)?;
+            out(&c, |obs| c11::check(&c, obs))
+        },
+    },
 ];
+
+/// bytes -> template case (hand-written decoder; see the `tmpl` target)
+fn decode_template(data: &[u8]) -> Option<c11::Case> {
+    use c11::{Api, Arg, Seg, TCase, V};
+    use c16::Piece;
+    if data.len() < 4 {
+        return None;
+    }
+    let dialect = DIALECTS[(data[0] % 3) as usize];
+    let api = [Api::Values, Api::Expr, Api::Exprs][(data[1] % 3) as usize];
+    let lead = if data[2] % 4 == 0 { Some((data[2] / 4) as i64) } else { None };
+    const WORD: [char; 8] = ['a', 'b', '1', '_', '$', 'é', '9', 'Z'];
+    const OPS: [char; 12] = ['=', '<', '+', '-', '(', ')', ',', '.', ':', '|', ']', '@'];
+    const BODY: [char; 8] = ['?', '$', '1', ' ', 'a', '\'', '"', '`'];
+    let mut i = 3;
+    let mut next = |i: &mut usize| -> u8 {
+        let b = data.get(*i).copied().unwrap_or(0);
+        *i += 1;
+        b
+    };
+    let mut segs = vec![];
+    while i < data.len() && segs.len() < 14 {
+        let k = next(&mut i);
+        let seg = match k % 8 {
+            0 => {
+                let n = 1 + (k / 8) % 4;
+                Seg::Word((0..n).map(|_| WORD[(next(&mut i) % 8) as usize]).collect())
+            }
+            1 => {
+                let n = 1 + (k / 8) % 2;
+                Seg::Op((0..n).map(|_| OPS[(next(&mut i) % 12) as usize]).collect())
+            }
+            2 => Seg::Ws([" ", "  ", "\t", "\n"][((k / 8) % 4) as usize].to_string()),
+            3 => {
+                let delim = ['\'', '"', '`', '['][((k / 8) % 4) as usize];
+                let n = next(&mut i) % 6;
+                let body = (0..n)
+                    .map(|_| {
+                        let b = next(&mut i);
+                        match b % 8 {
+                            5 => Piece::Doubled,
+                            6 => Piece::Esc(if delim == '[' { ']' } else { delim }),
+                            7 => Piece::Esc('\\'),
+                            x => Piece::Ch(BODY[((x as usize) + (b as usize / 8)) % 8]),
+                        }
+                    })
+                    .collect();
+                Seg::Quoted { delim, body }
+            }
+            4 | 5 => Seg::Ph(k / 8),
+            6 => Seg::Doubled,
+            _ => {
+                if (k / 8) % 2 == 0 {
+                    Seg::OtherMark(k / 16)
+                } else {
+                    let n = 1 + (k / 16) % 3;
+                    Seg::MarkWord((0..n).map(|_| WORD[(next(&mut i) % 8) as usize]).collect())
+                }
+            }
+        };
+        segs.push(seg);
+    }
+    let args = vec![Arg::Val(V::Int(7)), Arg::Col(1), Arg::EnumCast(V::Int(3)), Arg::Val(V::Text("v?$1'".into()))];
+    Some(c11::Case::Tmpl(TCase { dialect, api, lead, segs, args }))
+}
 
 pub fn target(name: &str) -> Option<&'static Target> {
     TARGETS.iter().find(|t| t.name == name)
